@@ -223,6 +223,7 @@ struct RebuildSearch {
     using FX = Fixture<Real, SI, KH, NbExtra, DataT>;
     using Algo = TbfAlgorithm<Real, typename FX::Kernel, SI>;
     Spec spec; Report& rep; Progress& pg; int depth;
+    u64 lastImplDigest = 0;
 
     static std::string opsStr(const std::vector<Op>& ops){
         std::string s;
@@ -333,7 +334,8 @@ struct RebuildSearch {
             for(int d = 0 ; d < Dim ; ++d) k = hcomb(k, u64(model.lat[i][d]));
             for(int s = 0 ; s < KH ; ++s){ k = hcomb(k, model.cnt[i][s]); k = hcomb(k, model.phi[i][s]); }
         }
-        // replay determinism: the key is a function of the model; the implementation digest must be a function of the key
+        // the implementation state (all tree buffers) must be a function of the canonical key when nothing is pending
+        lastImplDigest = model.pendingMove ? 0 : fx.treeDigest();
         return hcomb(k, u64(model.executes));
     }
 
@@ -341,6 +343,7 @@ struct RebuildSearch {
         const long nLeaves = 1L << (Dim*(spec.height-1));
         const std::string base = "tree: " + spec.str() + " ops=";
         std::unordered_set<u64> seen;
+        std::unordered_map<u64, std::pair<u64, std::string>> implOf;      // canonical key -> (tree digest, history)
         std::deque<std::vector<Op>> frontier;
         frontier.push_back({});
         { Outcome o; Model m; seen.insert(replay({}, o, m)); rep.addOutcome(o, base + "(none)"); }
@@ -363,6 +366,14 @@ struct RebuildSearch {
                 Outcome out; Model m2;
                 const u64 key = replay(h2, out, m2);
                 transitions += 1; rep.evaluations += 1; rep.traces += 1;
+                if(lastImplDigest){
+                    // a state reached by a history that does not end with a rebuild keeps the grouping of its last rebuild: compare only rebuilt states
+                    if(op.kind == 'R'){
+                        auto it = implOf.find(key);
+                        if(it == implOf.end()) implOf.emplace(key, std::make_pair(lastImplDigest, opsStr(h2)));
+                        else if(it->second.first != lastImplDigest) out.add("rebuild:tree-depends-on-history", "same particles and results, different tree bytes after rebuild: " + it->second.second + " vs " + opsStr(h2));
+                    }
+                }
                 rep.addOutcome(out, cs);
                 if(seen.insert(key).second){ states += 1; frontier.push_back(h2); }
             }
